@@ -21,11 +21,14 @@ TECHNIQUE = ('property-based testing (Hypothesis): differential between the '
              'Make build, the reference-Ninja build and compile_commands.json '
              'of the same generated script (recorded argv/cwd/env per output, '
              'target names, rebuild sets)')
-RULE = ('Generated DAG scripts (as for C03) decorated with per-target '
+RULE = ('Generated DAG scripts (as for C03, incl. always-outdated steps, link-'
+        'mode copies, generated headers, pch by name) decorated with per-target '
         'compile/link options, global options, dual-use library(), and '
         'configurations: --enable/--disable-shared/static, --prefix/--bindir '
         '(with spaces), CFLAGS/CPPFLAGS/LDFLAGS/LDLIBS from the environment. '
-        'Non-trivial: project has >= 1 library, >= 1 per-target option and '
+        'Besides the static comparison and one full build: rebuild sets '
+        'after touching each source, and every custom step built twice as '
+        'an explicit target.  Non-trivial: project has >= 1 library, >= 1 per-target option and '
         '>= 1 global or environment flag; distinct = canonical DAG shape + '
         'option/configuration signature.')
 LEVEL_TEXT = ('Generated-input search with a differential oracle between the '
